@@ -188,6 +188,11 @@ func runRule(name, cfg string) int {
 		}
 		if *flagVerbose || o.Verdict == ob.Violation {
 			fmt.Println(o)
+			if o.Verdict == ob.Violation {
+				for _, p := range o.Path {
+					fmt.Println("      " + p)
+				}
+			}
 		}
 	}
 	fmt.Printf("rule %s config %s: %d obligations, %d violations\n", name, cfg, len(list), bad)
